@@ -2,6 +2,10 @@
  * observe, as ndjson on stdout (doubles printed with %.17g: exact round trip).
  *
  * usage: surf_driver <scenario.txt> [--cfg=...]
+ *        surf_driver --batch <list.txt> [timeout_s]     one line per run: <scenario.txt> [--cfg=...]...; each run is
+ *                                                       executed in a forked child (one Engine per process), preceded
+ *                                                       by a line {"e":"begin","idx":N}; a child that does not finish
+ *                                                       within the timeout is killed and reported as end(hang)
  *
  * Scenario file: one directive per line, numbers in any strtod syntax (the generators write C99 hex floats).
  *   plugin host_energy|link_energy
@@ -17,7 +21,7 @@
  *   actor <h>                                           following op lines belong to this actor
  * Operations (ids are small integers chosen by the generator, unique per activity):
  *   sleep <d> | until <date>
- *   exec <id> <flops> <bound|0> <priority> <threads>            blocking
+ *   exec <id> <flops> <bound|0> <priority> <threads> [<h>]      blocking (on host h, default: the actor's host)
  *   xstart <id> <flops> <bound|0> <priority> <threads>          asynchronous start ; wait <id>
  *   comm <id> <hsrc> <hdst> <bytes>                             blocking host-to-host communication
  *   cstart <id> <hsrc> <hdst> <bytes>                           asynchronous ; wait <id>
@@ -43,6 +47,7 @@
 #include <map>
 #include <sstream>
 #include <string>
+#include <sys/wait.h>
 #include <unistd.h>
 #include <vector>
 
@@ -186,6 +191,8 @@ static sg4::ExecPtr make_exec(const Op& op)
     e->set_priority(prio);
   if (threads != 1)
     e->set_thread_count(threads);
+  if (op.a.size() > 5)
+    e->set_host(hosts[std::stoi(op.a[5])]);
   return e;
 }
 
@@ -202,7 +209,8 @@ static void do_sample(const std::string& tag)
   std::vector<double> he(hosts.size(), 0), le(links.size(), 0);
   if (host_energy)
     for (size_t i = 0; i < hosts.size(); i++)
-      he[i] = sg_host_get_consumed_energy(hosts[i]);
+      if (hosts[i]->get_property("wattage_per_state") != nullptr)
+        he[i] = sg_host_get_consumed_energy(hosts[i]);
   if (link_energy)
     for (size_t i = 0; i < links.size(); i++)
       le[i] = sg_link_get_consumed_energy(links[i]);
@@ -400,7 +408,11 @@ static void on_time_advance(double delta)
     auto* impl = a.ptr->get_impl();
     if (impl->model_action_ == nullptr)
       continue;
-    o << (first ? "" : ",") << "\"" << id << "\":" << d2s(impl->model_action_->get_remains());
+    auto* ma   = impl->model_action_;
+    double rem = ma->get_state() == simgrid::kernel::resource::Action::State::STARTED && not ma->is_suspended()
+                     ? ma->get_remains()
+                     : ma->get_remains_no_update();
+    o << (first ? "" : ",") << "\"" << id << "\":" << d2s(rem);
     first = false;
   }
   o << "},\"hload\":[";
@@ -411,7 +423,7 @@ static void on_time_advance(double delta)
     o << (i ? "," : "") << d2s(links[i]->get_load());
   o << "],\"cap\":[";
   for (size_t i = 0; i < hosts.size(); i++)
-    o << (i ? "," : "") << d2s(hosts[i]->get_available_speed() * hosts[i]->get_core_count());
+    o << (i ? "," : "") << d2s(hosts[i]->get_speed() * hosts[i]->get_available_speed() * hosts[i]->get_core_count());
   o << "],\"lcap\":[";
   for (size_t i = 0; i < links.size(); i++)
     o << (i ? "," : "") << d2s(links[i]->get_bandwidth());
@@ -419,7 +431,73 @@ static void on_time_advance(double delta)
   emit(o.str());
 }
 
+static int run_one(int argc, char** argv);
+
+static int run_batch(const char* list, int timeout_s)
+{
+  std::ifstream in(list);
+  if (!in) {
+    fprintf(stderr, "surf_driver: cannot read %s\n", list);
+    return 4;
+  }
+  std::string line;
+  long idx = 0;
+  while (std::getline(in, line)) {
+    std::istringstream ls(line);
+    std::vector<std::string> t;
+    std::string w;
+    while (ls >> w)
+      t.push_back(w);
+    if (t.empty())
+      continue;
+    printf("{\"e\":\"begin\",\"idx\":%ld}\n", idx);
+    fflush(stdout);
+    pid_t pid = fork();
+    if (pid == 0) {
+      std::vector<char*> av;
+      static std::string self = "surf_driver";
+      av.push_back(self.data());
+      for (auto& x : t)
+        av.push_back(x.data());
+      av.push_back(nullptr);
+      int rc = run_one(static_cast<int>(av.size()) - 1, av.data());
+      fflush(stdout);
+      _exit(rc);
+    }
+    int status    = 0;
+    bool finished = false;
+    long waited_us = 0;
+    while (waited_us < timeout_s * 1000000L) {
+      pid_t r = waitpid(pid, &status, WNOHANG);
+      if (r == pid) {
+        finished = true;
+        break;
+      }
+      long step = waited_us < 20000 ? 200 : 5000;
+      usleep(step);
+      waited_us += step;
+    }
+    if (not finished) {
+      kill(pid, SIGKILL);
+      waitpid(pid, &status, 0);
+      printf("{\"e\":\"end\",\"how\":\"hang\"}\n");
+    } else if (WIFSIGNALED(status) || (WIFEXITED(status) && WEXITSTATUS(status) != 0))
+      printf("{\"e\":\"childstatus\",\"signaled\":%d,\"code\":%d}\n", WIFSIGNALED(status) ? WTERMSIG(status) : 0,
+             WIFEXITED(status) ? WEXITSTATUS(status) : -1);
+    fflush(stdout);
+    idx++;
+  }
+  return 0;
+}
+
 int main(int argc, char** argv)
+{
+  if (argc >= 3 && std::string(argv[1]) == "--batch")
+    return run_batch(argv[2], argc >= 4 ? atoi(argv[3]) : 60);
+  return run_one(argc, argv);
+}
+
+static int run_one(int argc, char** argv)
 {
   if (argc < 2) {
     fprintf(stderr, "usage: surf_driver scenario.txt [--cfg=...]\n");
